@@ -215,6 +215,10 @@ type Scenario struct {
 	Monitor  int            `json:"monitor"` // check invariants every Nth slice (1 = every slice, 0 = only at operation boundaries)
 	Dump     bool           `json:"dump,omitempty"`
 	PoolSeed uint64         `json:"pool_seed,omitempty"`
+	// EnvSeed: simulated process environment (clock, pid, environment
+	// variables, directories, random source) seen through the latent seams;
+	// 0 = the fixed world every pristine reference sees.
+	EnvSeed uint64 `json:"env_seed,omitempty"`
 	// SyncPkgs: packages using synchronisation primitives (from the
 	// instrumenter); a change of their package-level state is not by itself
 	// a race and is not reported as I-GLOBAL (the worker still retires).
@@ -278,6 +282,7 @@ type Stats struct {
 	SyncPoints         uint64   `json:"sync_points,omitempty"`
 	Touches            uint64   `json:"global_accesses,omitempty"` // accesses to package-level variables seen by the race detector
 	WriteYields        uint64   `json:"write_yields,omitempty"`
+	EnvReads           uint64   `json:"env_reads,omitempty"`
 	SyncedGlobalWrites int      `json:"synced_global_writes,omitempty"`
 	SwitchHash         string   `json:"switch_hash"` // hash of the (task,op,site) switch sequence
 	YieldCover         int      `json:"yield_cover,omitempty"`
